@@ -6,6 +6,7 @@
 (* poll switching), frappy/modules.py Drivable.isBusy / isDriving.                     *)
 (*                                                                                     *)
 (* Requirement automaton over what can be observed at the module's boundary:           *)
+(*   Posted              start_machine() has handed the request to the machine         *)
 (*   Started(fast)       start_machine(fast_poll=fast) has returned                    *)
 (*   StopReq(act, st)    stop_machine(st) / the stop command returned; act = the       *)
 (*                       machine was active                                            *)
@@ -44,8 +45,16 @@ hvars == <<req, stopst, finalst, fin, ending, errdue, finerr, fastreq>>
 HInit == /\ req = FALSE /\ stopst = AnySt /\ finalst = AnySt /\ fin = {} /\ ending = FALSE
          /\ errdue = FALSE /\ finerr = FALSE /\ fastreq = FALSE
 
-Started(fast) == /\ req' = TRUE /\ ending' = FALSE /\ fastreq' = (fastreq \/ fast)
-                 /\ UNCHANGED <<stopst, finalst, fin, errdue, finerr>>
+(* start_machine() is not one step: it hands the request to the machine (Posted: from here *)
+(* on the machine is about to run, busy is due) and it writes / publishes the BUSY status   *)
+(* and switches polling (returned: Started).  Cycles of the poll thread may fall between    *)
+(* the steps: a machine that already finished again before start_machine() returns owes no  *)
+(* busy status and no fast polling any more.                                                *)
+Posted == /\ req' = TRUE /\ ending' = FALSE
+          /\ UNCHANGED <<stopst, finalst, fin, errdue, finerr, fastreq>>
+
+Started(fast) == /\ fastreq' = ((fastreq \/ fast) /\ req)
+                 /\ UNCHANGED <<req, ending, stopst, finalst, fin, errdue, finerr>>
 
 (* a stop request accepted while a run is ending cancels a start it would hand over to *)
 (* (the machine finishes) and its stopped status becomes an admissible final status   *)
@@ -96,7 +105,8 @@ Quiet(act, pend, code, st, fast) ==
                                     /\ (fin = {} \/ st \in fin)
                                     /\ (finerr => IsError(code)))
 
-HNext == \/ \E fast \in BOOLEAN : Started(fast)
+HNext == \/ Posted
+         \/ \E fast \in BOOLEAN : Started(fast)
          \/ \E act \in BOOLEAN, st \in Statuses : StopReq(act, st)
          \/ \E st \in Statuses : Final(st)
          \/ \E kind \in {"start", "stop", "error"} : OnCleanup(kind, kind)
